@@ -233,7 +233,8 @@ def key(s):
 
 SCORING = [(100, 1, -25, 100, 120), (100, 1, -25, 60, 120),     # the second lets one-pair off-diagonal segments exist
            (100, 1, -25, 100, 120, 0, 0), (100, 1, -25, 60, 120, 0.5, 1),      # join multiplier 0 (a legal -sj value) / 0.5 with -ss 1
-           (1000, 1, -250, 1000, 1200)]                                         # the CLI defaults, for worlds in base pairs
+           (1000, 1, -250, 1000, 1200),                                         # the CLI defaults, for worlds in base pairs
+           (100, 1, 0, 100, 120), (100, 1, 0, 60, 120)]                         # unmatched penalty 0 (-su 0 is legal): unpaired labels score exactly 0
 
 
 @core.guarded(lambda rpos, qpos, maxd, rev, pk, acc=None, aligner=None, scoring=0: dict(reference=rpos, query=qpos, maxDistance=maxd, reverse=rev, peaks=pk, scoring=scoring))
@@ -361,10 +362,10 @@ class Ladders(core.Layer):
 def layers(tier, seed):
     base = list(base_worlds())
     if tier == 'quick':
-        return [Ladders('base,k<=4', base, 4), Ladders('base,sj=0|0.5,k<=3', base, 3, scorings=(2, 3)), Ladders('derived/5,k<=3', list(derived_worlds())[::5], 3),
+        return [Ladders('base,k<=4', base, 4), Ladders('base,sj=0|0.5,k<=3', base, 3, scorings=(2, 3)), Ladders('base,su=0,k<=3', base, 3, scorings=(5, 6)), Ladders('derived/5,k<=3', list(derived_worlds())[::5], 3),
                 Ladders('indel-ladders,k<=3', list(ladder_worlds(False)), 3), Ladders('duplications,k<=3', list(dup_worlds()) + list(shared_label_dup_worlds()), 3),
                 Ladders('collisions,k<=3', list(collision_worlds()), 3),
                 Ladders('base-pair-scale,k<=3', list(basepair_worlds()), 3, scorings=(4, 4), maxds=(1000, 1500))]
     der = list(derived_worlds())
-    return [Ladders('base,k<=5', base, 5), Ladders('base,sj=0|0.5,k<=4', base, 4, scorings=(2, 3)), Ladders('duplications,sj=0|0.5,k<=3', list(dup_worlds()), 3, scorings=(2, 3)), Ladders('indel-ladders,k<=4', list(ladder_worlds(True)), 4), Ladders('duplications,k<=4', list(dup_worlds()) + list(shared_label_dup_worlds()), 4), Ladders('collisions,k<=3', list(collision_worlds()), 3), Ladders('base-pair-scale,k<=3', list(basepair_worlds()), 3, scorings=(4, 4), maxds=(1000, 1500)), Ladders('derived,k<=3', der, 3),
+    return [Ladders('base,k<=5', base, 5), Ladders('base,sj=0|0.5,k<=4', base, 4, scorings=(2, 3)), Ladders('base,su=0,k<=4', base, 4, scorings=(5, 6)), Ladders('indel-ladders,su=0,k<=3', list(ladder_worlds(False)), 3, scorings=(5, 6)), Ladders('duplications,sj=0|0.5,k<=3', list(dup_worlds()), 3, scorings=(2, 3)), Ladders('indel-ladders,k<=4', list(ladder_worlds(True)), 4), Ladders('duplications,k<=4', list(dup_worlds()) + list(shared_label_dup_worlds()), 4), Ladders('collisions,k<=3', list(collision_worlds()), 3), Ladders('base-pair-scale,k<=3', list(basepair_worlds()), 3, scorings=(4, 4), maxds=(1000, 1500)), Ladders('derived,k<=3', der, 3),
             Ladders('derived,k=4', der, 4, optional=True)]
